@@ -860,16 +860,21 @@ def _loop_rows(repo, mod, fi, loop):
     it = loop.iter
     if fi is not None:
         it = expand_expr(fi, it, loop)
-    if isinstance(it, ast.Name) and (fi is None or not (it.id in _param_names(fi) or _name_stores(fi, it.id))):
-        vals = [v for v in mod.assigns.get(it.id, [])]
-        if len(vals) == 1 and isinstance(vals[0], ast.expr):
-            it = vals[0]
+    def module_const(e):
+        # a module-level name bound once to a display
+        if isinstance(e, ast.Name) and (fi is None or not (e.id in _param_names(fi) or _name_stores(fi, e.id))):
+            vals = [v for v in mod.assigns.get(e.id, [])]
+            if len(vals) == 1 and isinstance(vals[0], ast.expr):
+                return vals[0]
+        return e
+    it = module_const(it)
     elems = None
     if isinstance(it, (ast.List, ast.Tuple)):
         elems = list(it.elts)
-    elif isinstance(it, ast.Call) and isinstance(it.func, ast.Attribute) and it.func.attr == 'items' and not it.args and \
-            isinstance(it.func.value, ast.Dict) and all(k is not None for k in it.func.value.keys):
-        elems = [ast.Tuple(elts=[k, v], ctx=ast.Load()) for k, v in zip(it.func.value.keys, it.func.value.values)]
+    elif isinstance(it, ast.Call) and isinstance(it.func, ast.Attribute) and it.func.attr == 'items' and not it.args and not it.keywords and \
+            isinstance(module_const(it.func.value), ast.Dict) and all(k is not None for k in module_const(it.func.value).keys):
+        d = module_const(it.func.value)
+        elems = [ast.Tuple(elts=[k, v], ctx=ast.Load()) for k, v in zip(d.keys, d.values)]
     elif isinstance(it, ast.Call) and isinstance(it.func, ast.Name) and it.func.id == 'zip' and len(it.args) >= 2 and \
             all(isinstance(a, (ast.List, ast.Tuple)) for a in it.args) and len(set(len(a.elts) for a in it.args)) == 1:
         elems = [ast.Tuple(elts=list(col), ctx=ast.Load()) for col in zip(*[a.elts for a in it.args])]
